@@ -261,18 +261,20 @@ void MD5::update(const void* plain_text_ptr, size_t plain_text_len)
     //! 下面代码是解决一个unsignde int 无法储存极大数据导致溢出的问题
     //! 当前位数加上新添加的位数，由于plain_text_len是以字节为单位，所以其转换为位数
     //! 相当于count_[0] += plain_text_len*8;
-    count_[0] += plain_text_len << 3;
+    //! 注意：plain_text_len 是 size_t，必须先截成32位再比较，否则长度 >= 2^29 字节时会多进一次位
+    const uint32_t low_bits = static_cast<uint32_t>(plain_text_len << 3);
+    count_[0] += low_bits;
 
     //! 当其出现溢出的情况时，通过以下操作把两个16位的数连在一块，生成一个
     //! 32位的二进制数串，从而扩大其储存范围
-    if (count_[0] < (plain_text_len << 3))
+    if (count_[0] < low_bits)
         count_[1]++;
 
-    count_[1] += plain_text_len >> 29;
+    count_[1] += static_cast<uint32_t>(plain_text_len >> 29);
 
     const uint8_t *plain_text_u8_ptr = static_cast<const uint8_t*>(plain_text_ptr);
 
-    uint32_t i = 0;
+    size_t i = 0;
     //! 当其输入字节数的大于其可以补足64字节的字节数，进行补足
     if (plain_text_len >= partlen) {
         //! 向buffer_中补足partlen个字节，使其到达64字节
